@@ -36,7 +36,8 @@ inductive Node where
   | file (hdr : Bytes) (path : List Char)
   | fwfile (hdr : Bytes) (name : Bytes)
   | usb (hdr : Bytes) (port iface : Nat)
-  | nil                                    -- unsupported subtype: a nil entry is appended
+  | vendor (hdr : Bytes) (guid : Bytes)    -- vendor messaging node (F26 repair: it was dropped as nil)
+  | generic (hdr : Bytes)                  -- a subtype that is not decoded: the bare header (F26 repair: was a nil entry)
 deriving DecidableEq, Repr
 
 structure LoadOption where
@@ -59,14 +60,14 @@ def parseNode (bs : Bytes) : Outcome (Option (Node × Bytes)) :=
         match readN 2 r with
         | .error _ => .err           -- parseHardwareDevicePath: error (the exported wrapper would log.Fatal)
         | .ok (x, r') => .ok (some (.pci h (byteAt x 0) (byteAt x 1), r'))
-      else .ok (some (.nil, r))
+      else .ok (some (.generic h, r))
     else if ty = 2 then
       if sub = 1 then
         match readN 8 r with
         | .error _ => .err
         | .ok (x, r') => .ok (some (.acpi h (x.take 4) (x.drop 4), r'))
       else if sub = 2 then .err      -- expanded ACPI node: "not implemented" error
-      else .ok (some (.nil, r))
+      else .ok (some (.generic h, r))
     else if ty = 4 then
       if sub = 1 then
         match readN 38 r with
@@ -85,7 +86,7 @@ def parseNode (bs : Bytes) : Outcome (Option (Node × Bytes)) :=
         match readN 16 r with
         | .error _ => .err
         | .ok (x, r') => .ok (some (.fwfile h x, r'))
-      else .ok (some (.nil, r))
+      else .ok (some (.generic h, r))
     else if ty = 3 then
       if sub = 5 then
         match readN 2 r with
@@ -94,8 +95,8 @@ def parseNode (bs : Bytes) : Outcome (Option (Node × Bytes)) :=
       else if sub = 10 then
         match readN 16 r with
         | .error _ => .err
-        | .ok (_, r') => .ok (some (.nil, r'))     -- vendor node is read and dropped (returns nil)
-      else .ok (some (.nil, r))
+        | .ok (g, r') => .ok (some (.vendor h g, r'))
+      else .ok (some (.generic h, r))
     else .ok none
 
 /-- the `ParseDevicePath` loop (every turn consumes at least the 4 header bytes) -/
@@ -162,7 +163,8 @@ def encNode : Impl.Node → Bytes
   | .file h p => h ++ marshalUtf16 p
   | .fwfile h name => h ++ name
   | .usb h port iface => h ++ [port.toUInt8, iface.toUInt8]
-  | .nil => []
+  | .vendor _ _ => []
+  | .generic _ => []
 
 def endNode : Bytes := [0x7f, 0xff, 0x04, 0x00]
 
